@@ -93,6 +93,11 @@ def check_vcv(p, t, name, xyz, vcv, worst, kind):
 def psd_inputs(rng):
     """symmetric PSD 3x3 inputs incl. rank 2, rank 1, zero, diagonal, and large dynamic range"""
     r = rng.random()
+    if r < 0.06:
+        # the same kind of matrix held in an integer array (variances in whole units, a zero matrix typed int): same numbers, other dtype
+        a_ = np.array([[rng.randrange(-3, 4) for _ in range(3)] for _ in range(3)], dtype=rng.choice([np.int64, np.int32]))
+        m_ = rng.choice([a_ @ a_.T, np.diag(np.array([rng.randrange(0, 10) for _ in range(3)], dtype=np.int64)), np.zeros((3, 3), dtype=np.int64)])
+        return m_, 'integer'
     if r < 0.5:
         return gens.rand_psd(rng), 'general'
     if r < 0.65:
